@@ -521,10 +521,12 @@ func (e *EdgeQuery) maybeAddResult(shape Shape, shapeID, edgeID int32) {
 }
 
 func (e *EdgeQuery) findEdgesBruteForce() {
-	// Range over all shapes in the index. Does order matter here? if so
-	// switch to for i = 0 .. n?
-	for shapeID, shape := range e.index.shapes {
-		// TODO(roberts): can this happen if we are only ranging over current entries?
+	// Visit the shapes in increasing id order. Ranging over the shapes map
+	// would visit them in a random order, and when several edges are equally
+	// good (and MaxResults limits the output) the edge that is reported would
+	// then differ from one call to the next.
+	for shapeID := int32(0); shapeID < e.index.nextID; shapeID++ {
+		shape := e.index.Shape(shapeID)
 		if shape == nil {
 			continue
 		}
